@@ -120,7 +120,10 @@ class Ctx(object):
               'assumptions': self.assumptions, 'wall_s': round(time.time() - self.t0, 2),
               'violations': len(self.violations)}
         os.makedirs(os.path.join(ROOT, 'evidence'), exist_ok=True)
-        with open(os.path.join(ROOT, 'evidence', '%s.json' % self.pid), 'w') as f:
+        import re as _re
+        evdir = 'evidence' if _re.match(r'^C[0-9]+$', self.pid) else os.path.join('evidence', 'extra')
+        os.makedirs(os.path.join(ROOT, evdir), exist_ok=True)
+        with open(os.path.join(ROOT, evdir, '%s.json' % self.pid), 'w') as f:
             json.dump(ev, f, indent=1, default=str)
             f.write('\n')
         shutil.rmtree(self.workdir, ignore_errors=True)
